@@ -18,9 +18,9 @@ from hypothesis import strategies as st
 
 from tradingenv.env import TradingEnv
 from tradingenv.transmitter import Transmitter
-from tradingenv.state import IState
+from tradingenv.state import IState, State
 from tradingenv.events import (IEvent, EventNBBO, EventReset, EventStep, EventDone, EventNewDate,
-                               EventContractDiscontinued)
+                               EventContractDiscontinued, EventNewObservation)
 from tradingenv.broker.fees import BrokerFees
 from tradingenv.broker.broker import EndOfEpisodeError
 from tradingenv.contracts import Rate, Cash, ETF, ES, FutureChain, AbstractContract
@@ -93,6 +93,27 @@ class RecState(IState):
 
     def parse(self):
         return np.array([self.acc, float(self.count), self.last_ping])
+
+
+class RecWindowState(State):
+    """The library's windowed State (fed by EventNewObservation rows) plus the recorder's log."""
+
+    def __init__(self, nfeat, window, stride=None):
+        super().__init__(nfeat, window, stride, max_=1e9)
+        self.log = []
+
+    def process_EventNewObservation(self, event):
+        super().process_EventNewObservation(event)
+        tr = self.broker.track_record if getattr(self, "broker", None) is not None else None
+        self.log.append(("OBS", tuple(float(v).hex() for v in event.to_list()), event.time,
+                         len(tr) if tr is not None else -1, AbstractContract.now))
+
+
+def make_state(case):
+    st_ = case.get("state", ["rec"])
+    if st_[0] == "rec":
+        return RecState()
+    return RecWindowState(st_[1], st_[2], st_[3])
 
 
 def make_reward(spec):
@@ -189,6 +210,8 @@ def build(case, make_env=True, stream_override=None):
         stream.append((b.grid[gi % len(b.grid)], "RATE", r))
     for i, (gi, off_us, val) in enumerate(case.get("pings", [])):
         stream.append((b.grid[gi % len(b.grid)] + off_us, "P", (i, val)))
+    for (gi, off_us, values) in case.get("obs", []):
+        stream.append((b.grid[gi % len(b.grid)] + off_us, "OBS", list(values)))
     b.base_stream = stream
     b.stream = list(stream_override) if stream_override is not None else stream
     if make_env:
@@ -211,6 +234,8 @@ def events_from_stream(b):
             events.append(Ping(dt(t), payload[0], payload[1]))
         elif kind == "DISC":
             events.append(EventContractDiscontinued(dt(t), b.contracts[payload]))
+        elif kind == "OBS":
+            events.append(EventNewObservation(dt(t), {i: v for i, v in enumerate(payload)}))
         else:
             raise ValueError(kind)
     return events
@@ -254,7 +279,7 @@ def make_env_from(b):
         env = TradingEnv(action_space=make_space(b), transmitter=tr, initial_cash=case.get("deposit", 1000.0),
                          latency=b.latency, steps_delay=case.get("delay", 0), episode_length=case.get("episode_length"))
         return env
-    env = TradingEnv(action_space=make_space(b), state=RecState(), reward=make_reward(case.get("reward", ["simple"])),
+    env = TradingEnv(action_space=make_space(b), state=make_state(case), reward=make_reward(case.get("reward", ["simple"])),
                      transmitter=tr, initial_cash=case.get("deposit", 1000.0), broker_fees=fees,
                      latency=b.latency, steps_delay=case.get("delay", 0),
                      episode_length=case.get("episode_length"), sampling_span=case.get("sampling_span"))
